@@ -20,6 +20,7 @@ Sub-directives (inside fn/fragment/arm)
   //@loop <n> [ghostname]      following lines go between the n-th loop header and its `{`
   //@before[#k] `anchor`       following lines go before the k-th (default: only) occurrence
   //@after[#k] `anchor`        ... after it   (a trailing `?` as in //@before#4? makes the hint optional)
+  //@afterstmt[#k] `anchor`    ... after the end (`;`) of the statement containing it
   //@rewrite[xN] `from` => `to`   exact textual rewrite, must match exactly N (default 1) times
 """
 import hashlib
@@ -260,9 +261,17 @@ def _process_item(kind, head, sub, meta, occ=None):
             raise ExtractError(f"{what}: forwhile: loop #{nth} not found ({len(ls0)} loops)")
         lp0 = ls0[nth - 1]
         hdr = text[lp0["pos"]:lp0["body_open"]]
+        me = re.match(r"for\s+\(\s*(\w+)\s*,\s*(\w+)\s*\)\s+in\s+(.*?)\.iter\(\)\.enumerate\(\)\s*$", hdr, re.S)
+        if lp0["kw"] == "for" and me:
+            # `for (i, x) in V.iter().enumerate() {` => index loop over V (Verus has no Enumerate); `continue` stays valid: the increment is at the top
+            iv, xv, vec = me.group(1), me.group(2), me.group(3).strip()
+            new_hdr = f"let mut __{iv}: usize = 0; while __{iv} < {vec}.len() "
+            text = text[:lp0["pos"]] + new_hdr + "{" + f" let {iv} = __{iv}; let {xv} = &{vec}[__{iv}]; __{iv} += 1;" + text[lp0["body_open"] + 1:]
+            rec["rewrites"].append(f"R4 forwhile loop #{nth}: `{hdr.strip()}` => `{new_hdr.strip()} {{ let {iv} = __{iv}; let {xv} = &{vec}[__{iv}]; __{iv} += 1;`")
+            continue
         mh = re.match(r"for\s+(\w+)\s+in\s+(.*?)\.\.(=?)(.*?)\s*$", hdr, re.S)
         if lp0["kw"] != "for" or not mh or not mh.group(2).strip() or not mh.group(4).strip():
-            raise ExtractError(f"{what}: forwhile: loop #{nth} is not `for x in a..b`")
+            raise ExtractError(f"{what}: forwhile: loop #{nth} is not `for x in a..b` / `for (i, x) in v.iter().enumerate()`")
         var, a0, incl, b0 = mh.group(1), mh.group(2).strip(), mh.group(3), mh.group(4).strip()
         op = "<=" if incl else "<"
         new_hdr = f"let mut __{var} = {a0}; while __{var} {op} {b0} "
@@ -330,8 +339,8 @@ def _process_item(kind, head, sub, meta, occ=None):
                 if not mm:
                     raise ExtractError(f"{what}: no `in` in for loop #{n}")
                 inserts.append((lp["pos"] + mm.end(), order, f" {p[1]}:", f"loop{n}-ghostname"))
-        elif re.match(r"(before|after)(#\d+)?\??$", d):
-            mm = re.match(r"(before|after)(?:#(\d+))?(\?)?$", d)
+        elif re.match(r"(before|after|afterstmt)(#\d+)?\??$", d):
+            mm = re.match(r"(before|after|afterstmt)(?:#(\d+))?(\?)?$", d)
             t = _ticks(tail)
             if len(t) != 1:
                 raise ExtractError(f"{what}: bad anchor directive")
@@ -346,6 +355,20 @@ def _process_item(kind, head, sub, meta, occ=None):
                 raise
             if mm.group(1) == "after":
                 pos += len(t[0])
+            elif mm.group(1) == "afterstmt":
+                # after the END of the statement that contains the anchor (the anchor can then be a minimal prefix)
+                e, dep = pos, 0
+                while e < len(tm):
+                    c = tm[e]
+                    if c in "([{":
+                        dep += 1
+                    elif c in ")]}":
+                        dep -= 1
+                    elif c == ";" and dep == 0:
+                        e += 1
+                        break
+                    e += 1
+                pos = e
             inserts.append((pos, order, "\n" + ghost + "\n", f"{mm.group(1)} `{t[0]}`"))
         elif d.startswith("rewrite") or d in ("strslice", "forwhile", "dropstmt"):
             pass
